@@ -97,7 +97,7 @@ def get(prog, path):
     return cur
 
 
-RAISE_KINDS = ["expr", "iterloop", "pysc", "py", "arg", "expr", "capnc"]
+RAISE_KINDS = ["expr", "iterloop", "pysc", "py", "arg", "textfilter", "capnc", "expr"]
 UNDEF_NAME = "missing_name_zq"
 
 
@@ -111,6 +111,10 @@ def raise_node(kind):
         # nothing may be left - `loop` of an enclosing loop is what it was
         return {"t": "for", "target": "zq9", "iter": "boom(Boom)", "body": [{"t": "expr", "e": "loop.index"}], "else": None,
                 "ind": "", "sp": " ", "uses_loop": True}
+    if kind == "textfilter":
+        # the filter of a <%text> section raises after the section's buffer was pushed: the writer of the enclosing
+        # callable must be the one it had before
+        return {"t": "texttag", "s": "raw ${x}", "filter": ["boomf"]}
     if kind == "capnc":
         # capture() refuses a non-callable before it has set anything up: nothing may be left behind
         return {"t": "expr", "e": "capture(42)"}
@@ -190,6 +194,7 @@ def mako_run(src, mode, uri, strict=False):
     from mako import runtime as _rt
 
     ctx["pysc"] = _rt.supports_caller(lambda context: ctx["boom"]())
+    ctx["boomf"] = lambda s: ctx["boom"]()
     kw = {}
     handled = []
     if mode == "error_handler":
@@ -201,6 +206,14 @@ def mako_run(src, mode, uri, strict=False):
         kw["format_exceptions"] = True
     if strict:
         kw["strict_undefined"] = True
+    if mode == "handler_declines":
+        # any false return value declines (a handler that only logs returns None)
+        declined = [None, 0, "", [], False][len(src) % 5]
+
+        def eh3(context, error):
+            handled.append(error)
+            return declined
+        kw["error_handler"] = eh3
     if mode == "handler_declines_baseexc":
         pre = SystemExit(3) if len(src) % 2 else KeyboardInterrupt("stop", 2)
         ctx["boom"] = lambda cls=None, msg="boom": (_ for _ in ()).throw(pre)
@@ -223,7 +236,7 @@ def mako_run(src, mode, uri, strict=False):
             t = Template(src, uri=uri, imports=tenv.IMPORTS, **kw)
     except Exception as e:
         return ("compile-exc", type(e).__name__, str(e)[:200])
-    if mode in ("render", "error_handler", "format_exceptions", "handler_declines_baseexc"):
+    if mode in ("render", "error_handler", "format_exceptions", "handler_declines_baseexc", "handler_declines"):
         try:
             out = t.render(**ctx) if variant & 1 else t.render_unicode(**ctx)
             if isinstance(out, bytes):
@@ -306,6 +319,14 @@ def check_case(case, ev=None, want_caught=False):
             raise Failure(case, "with error_handler->True mako returned %r, expected the direct output so far %r%s" % (got[1], exp, tag), "error_handler:output-differs")
         if ref[0] == "exc" and (len(got[2]) != 1 or (ref[1] == "Boom" and case["kind"] not in ("py", "undef") and got[2][0] is not got[3])):
             raise Failure(case, "error_handler calls: %r%s" % (got[2], tag), "error_handler:calls")
+    elif mode == "handler_declines":
+        if ref[0] == "exc":
+            if got[0] != "exc":
+                raise Failure(case, "error_handler returned a false value but the render returned %r%s" % (got[1], tag), "handler-declines:swallowed")
+            if ref[1] == "Boom" and case["kind"] not in ("py", "undef") and got[1] is not got[2]:
+                raise Failure(case, "error_handler declined but %r propagated instead of the original object%s" % (got[1], tag), "handler-declines:not-same-object")
+        elif got[:2] != ("ok", ref[1]):
+            raise Failure(case, "mako rendered %r, reference %r%s" % (got[:2], ref[1], tag), "handled:output-differs")
     elif mode == "handler_declines_baseexc":
         # the reference raises Boom at that point; mako is given a pre-built SystemExit / KeyboardInterrupt instead, which no
         # `% except (Boom, NameError)` catches: it must propagate as the very same object when the error_handler declines
@@ -421,7 +442,7 @@ def run_subject(prog, ev, fails, quick):
         nt = h.pop("nt")
         cases.append((dict(h, mode=hmodes[i % len(hmodes)]), nt))
     for (rpath, ridx, kind, ranc) in unhandled:
-        for mode in ("render", "context", "error_handler", "format_exceptions", "second") + (("handler_declines_baseexc",) if kind in ("expr", "arg") else ()):
+        for mode in ("render", "context", "error_handler", "format_exceptions", "second", "handler_declines") + (("handler_declines_baseexc",) if kind in ("expr", "arg") else ()):
             cases.append(({"prog": prog, "rpath": rpath, "ridx": ridx, "kind": kind, "hpath": None, "hidx": None, "mode": mode},
                           sum(1 for a in ranc if a in NEST) >= 2))
     for case, nt in cases:
